@@ -162,6 +162,7 @@ type crashRec struct {
 	run    int
 	stderr string
 	points []PointAct
+	hang   bool
 }
 
 func newBatchResult(domain string) *batchResult {
@@ -204,7 +205,8 @@ func (c *checker) runBatch(bin string, domain string, N int, extraEnv []string) 
 			defer wg.Done()
 			from := w
 			var skips []string
-			for attempt := 0; attempt < 8 && from < N; attempt++ {
+			hangs := 0
+			for attempt := 0; attempt < 8 && from < N && hangs < 2; attempt++ {
 				out := filepath.Join(c.workDir, fmt.Sprintf("%s-w%d-a%d.json", domain, w, attempt))
 				jr := filepath.Join(c.workDir, fmt.Sprintf("%s-w%d-a%d.journal", domain, w, attempt))
 				os.Remove(out)
@@ -261,7 +263,11 @@ func (c *checker) runBatch(bin string, domain string, N int, extraEnv []string) 
 				crashed := -1
 				jl := readLines(jr)
 				var crashPoints []PointAct
+				hung := false
 				for i := len(jl) - 1; i >= 0; i-- {
+					if strings.HasPrefix(jl[i], "HANG ") {
+						hung = true
+					}
 					if strings.HasPrefix(jl[i], "POINTS ") && crashPoints == nil {
 						var n int
 						fmt.Sscanf(jl[i], "POINTS %d", &n)
@@ -281,7 +287,10 @@ func (c *checker) runBatch(bin string, domain string, N int, extraEnv []string) 
 					mu.Unlock()
 					return
 				}
-				br.crashes = append(br.crashes, crashRec{run: crashed, stderr: headTail(stderr.String(), 3000), points: crashPoints})
+				br.crashes = append(br.crashes, crashRec{run: crashed, stderr: headTail(stderr.String(), 3000), points: crashPoints, hang: hung})
+				if hung {
+					hangs++
+				}
 				// keep what the worker had flushed; resume from its flush point, skipping the killer
 				skips = append(skips, fmt.Sprint(crashed))
 				if ok {
@@ -694,15 +703,16 @@ func (c *checker) handleViolations(bin string, br *batchResult, extraEnv []strin
 		v      *Violation
 		size   int
 		points []PointAct
+		hang   bool
 	}
 	var cands []cand
 	for _, r := range br.records {
 		if r.Violation != nil {
-			cands = append(cands, cand{r.Run, r.Violation, r.Steps, r.Points})
+			cands = append(cands, cand{r.Run, r.Violation, r.Steps, r.Points, false})
 		}
 	}
 	for _, cr := range br.crashes {
-		cands = append(cands, cand{cr.run, nil, 0, cr.points})
+		cands = append(cands, cand{cr.run, nil, 0, cr.points, cr.hang})
 	}
 	if len(cands) == 0 {
 		return
@@ -728,6 +738,9 @@ func (c *checker) handleViolations(bin string, br *batchResult, extraEnv []strin
 	}
 	for _, cd := range cands {
 		sig := "crash"
+		if cd.hang {
+			sig = "hang"
+		}
 		if cd.v != nil {
 			sig = cd.v.Class + "/" + cd.v.Oracle
 		}
@@ -737,6 +750,35 @@ func (c *checker) handleViolations(bin string, br *batchResult, extraEnv []strin
 		c.raceCrashMine = false
 		tr := genTrace(c.prop, c.seed, cd.run, o)
 		tr.Points = cd.points
+		if cd.hang {
+			// suspected hang: the run alone, twice, each with a limit four orders of
+			// magnitude above a normal run; both must stall in the same operation
+			a := c.execChild(bin, tr, extraEnv, 60*time.Second)
+			b := c.execChild(bin, tr, extraEnv, 60*time.Second)
+			if a.timedOut && b.timedOut && a.lastStep == b.lastStep && a.inObs == b.inObs && a.lastStep >= 0 && a.lastStep < len(tr.Steps) {
+				st := tr.Steps[a.lastStep]
+				or := propOracles[c.prop]
+				if a.inObs || or&opOracle(st.Op) != 0 || (isSeqOp(st.Op) && or&oAbandon != 0) || c.cfg.crashIsMine {
+					hv := &Violation{Prop: c.prop, Class: "hang", Oracle: "returns-normally", Step: a.lastStep, Detail: fmt.Sprintf("%s(%x,%x) at step %d did not return within 60 s in two separate executions (a normal run takes milliseconds)", st.Op, []byte(st.K), []byte(st.K2), a.lastStep)}
+					small := cloneTrace(tr)
+					small.Steps = small.Steps[:a.lastStep+1]
+					rp := filepath.Join(rootDir, "replays", fmt.Sprintf("%s-%s-seed%d-run%d.json", c.prop, br.domain, c.seed, cd.run))
+					os.MkdirAll(filepath.Dir(rp), 0o755)
+					writeJSON(rp, &ReplayFile{Violation: hv, Trace: small, Note: "suspected hang; truncated after the stalling step; replay with ./check " + c.prop + " --replay " + rp})
+					rv := c.execFile(bin, rp, extraEnv, 60*time.Second)
+					if rv.timedOut && rv.lastStep == a.lastStep {
+						reported++
+						c.nViol++
+						c.lines = append(c.lines, fmt.Sprintf("VIOLATION property=%s replay=%s", c.prop, rp))
+						c.logf("  %s", hv)
+						seen["hang"] = true
+						continue
+					}
+				}
+			}
+			c.inconclusive = append(c.inconclusive, fmt.Sprintf("run %d: a worker stalled in this run; not confirmed as a hang of an operation this property is responsible for", cd.run))
+			continue
+		}
 		confirmTries := 1
 		if c.cfg.engine == "race" {
 			// under -race sync.Pool drops one Put in four at random: whether another
@@ -784,8 +826,12 @@ func (c *checker) handleViolations(bin string, br *batchResult, extraEnv []strin
 				c.notes = append(c.notes, fmt.Sprintf("run %d did not finish within the replay timeout", cd.run))
 				continue
 			}
-			c.broken = true
-			c.notes = append(c.notes, fmt.Sprintf("run %d reported %v in the worker but not when re-executed alone: harness nondeterminism", cd.run, cd.v))
+			// not reproduced in a fresh process: either the library's behaviour depends on
+			// something outside the trace (addresses, leftovers of earlier runs in the
+			// worker) or the harness is nondeterministic. Never reported as a violation,
+			// never silent: inconclusive, and the check has no verdict unless another
+			// violation was confirmed.
+			c.inconclusive = append(c.inconclusive, fmt.Sprintf("run %d reported %v in the worker but not when re-executed alone", cd.run, cd.v))
 			continue
 		}
 		seen[sig] = true
@@ -1115,6 +1161,19 @@ func checkMain(args []string) int {
 			fmt.Fprintln(os.Stderr, "NOTE: no sample trace was collected")
 		}
 	}
+	if c.nViol == 0 && len(c.inconclusive) > 0 {
+		c.broken = true
+		c.notes = append(c.notes, "inconclusive results and no confirmed violation")
+	}
+	if c.broken && c.nViol > 0 {
+		// a violation was confirmed and replayed in a fresh process: that verdict
+		// stands even though the rest of the run could not be completed
+		for _, n := range c.notes {
+			fmt.Fprintln(os.Stderr, "NOTE:", n)
+		}
+		fmt.Fprintln(os.Stderr, "the batch could not be completed, but a violation was confirmed (exit 1)")
+		return 1
+	}
 	if c.broken {
 		fmt.Fprintln(os.Stderr, "check could not be completed (exit 2); no verdict")
 		return 2
@@ -1207,9 +1266,13 @@ func (c *checker) replay(path string) int {
 		bin = b
 		env = append(env, "VERIF_POINTS=1")
 	}
+	rtimeout := 10 * time.Minute
+	if rf.Violation != nil && rf.Violation.Class == "hang" {
+		rtimeout = 60 * time.Second
+	}
 	var cv *childVerdict
 	for a := 0; a < tries; a++ {
-		cv = c.execFile(bin, path, env, 10*time.Minute)
+		cv = c.execFile(bin, path, env, rtimeout)
 		if cv.Violation != nil || cv.crashed {
 			break
 		}
@@ -1220,6 +1283,9 @@ func (c *checker) replay(path string) int {
 			c.raceCrashMine = true
 		}
 		got = c.crashViolation(rf.Trace, cv)
+	}
+	if got == nil && cv.timedOut && rf.Violation != nil && rf.Violation.Class == "hang" {
+		got = rf.Violation
 	}
 	if got != nil {
 		fmt.Printf("REPRODUCED %s\n", got)
